@@ -5,6 +5,7 @@ Line-protocol driver for the rule-list edit machine (C09). Stateful: one sheet p
 requests (one per line)                                   reply
   reset <raising 0|1>                                      <outcome> | <dump>
   ins <spec> <index|N> <viaStr 0|1>
+  insord <spec> <index> <viaStr>                          insertRule(rule, index, inOrder=True)
   add <spec> <viaStr>
   del <int>
   enc <cps> <valid 0|1>
@@ -162,6 +163,9 @@ def decOp (ws : List String) : Option Op :=
   match ws with
   | ["ins", s, i, v] => match decSpec s, decIdx i, decBool v with
     | some s, some i, some v => some (.insert s i v)
+    | _, _, _ => none
+  | ["insord", s, i, v] => match decSpec s, decInt i, decBool v with
+    | some s, some i, some v => some (.insertOrdered s i v)
     | _, _, _ => none
   | ["add", s, v] => match decSpec s, decBool v with
     | some s, some v => some (.add s v)
